@@ -150,4 +150,6 @@ MUTANTS = [
     ("c14-part-check-sum", "C14", [(R, 1, "if offset > data_end || size > data_end - offset {", "if offset + size > data_end {")], "fire", "C14-AUDIT"),
     ("c20-dir-strict", "C20", [(K, 1, "            self.kmer_dir <= self.kmer_rc", "            self.kmer_dir < self.kmer_rc")], "fire", "C20-K1"),
     ("c05-swap-worker-args", "C05", [(A, 1, "                    group_counter,\n                    raw_group_counter,\n                    reference_sample_name,", "                    raw_group_counter,\n                    group_counter,\n                    reference_sample_name,")], "fire", "C05-T4"),
+    ("c02-placeholder-no-separator", "C02", [(A, 2, "            packed_data.push(0x7f);\n            packed_data.push(CONTIG_SEPARATOR);", "            packed_data.push(0x7f);")], "fire", "C02-PLACEHOLDER"),
+    ("c06-close-notify-one", "C06", [(Q, 1, "        self.not_full.notify_all();", "        self.not_full.notify_one();")], "fire", "C06-Q"),
 ]
